@@ -258,9 +258,20 @@ def install_table(events, toks, out_path, fault, sink=None):
         return v
 
     rt.init = init
+    # a module that imported the function by name (from .results_table import init) holds its own reference
+    rebound = []
+    for mod in list(sys.modules.values()):
+        if mod is None or not getattr(mod, "__name__", "").startswith("nuspacesim") or mod is rt:
+            continue
+        for name, val in list(vars(mod).items()):
+            if val is orig_init:
+                setattr(mod, name, init)
+                rebound.append((mod, name))
 
     def undo():
         rt.init = orig_init
+        for mod, name in rebound:
+            setattr(mod, name, orig_init)
 
     return undo, counter
 
